@@ -7,6 +7,7 @@ OverflowError} and reach ``return default``; string filters normalise their inpu
 soft_str/str before using str methods; truncate's length accounting subtracts len(end) and
 honours the leeway; the registrations in FILTERS point at these functions.
 Also: None-defaulted parameters are replaced only under `is None` (no `p = p or d`); text regexes are not ASCII-restricted.  
+Also: filesizeformat's prefixed returns agree on the scaling; a filter's options are forwarded under their own names.  
 Not decided: truncation/wrapping/rounding arithmetic - it quantifies over runtime values.
 """
 
